@@ -354,6 +354,21 @@ theorem rt_invents_no_ref (n : Nat) (s : Shape) (kvs kvs1 : Obj) (hs : refSafe s
     refString kvs1 = none :=
   (rt_inv table_deepOK n).noRef s kvs kvs1 hs h hr
 
+/-- Nothing is lost at any struct object of the deep round trip, whatever its children are: a key that is not
+    a tag of the kind — a specification extension, an unknown field — is written back with its value (deep
+    counterpart of `flat_keeps_unknown`; `example` is excluded because of the date post-processing). -/
+theorem rt_keeps_unknown (n : Nat) (kind : String) (d : Desc) (kvs o1 : Obj) (key : String)
+    (hf : findDesc descriptors kind = some d) (ht : d.template = .struct)
+    (h : rt descriptors (n + 1) (.kind kind) (.obj kvs) = .ok (.obj o1))
+    (hr : refTaken d (applyPost d kvs) = false) (hk : key ∉ tagKeys d) (hke : key ≠ "example") :
+    lookup key o1 = lookup key kvs := by
+  have h' : rtStep descriptors (rt descriptors n) (.kind kind) (.obj kvs) = .ok (.obj o1) := h
+  simp only [rtStep, stepKind, hf, ht] at h'
+  obtain ⟨o2, hm, e⟩ := wrap_ok _ _ _ h'
+  cases e
+  obtain ⟨w, _, _⟩ := deepOK_struct d (table_deepOK d (findDesc_mem descriptors kind d hf)) ht
+  exact marshalDeep_keeps_unknown d w kvs o1 hm hr key hk hke
+
 /-- a value never becomes null in the trip (only an empty type list does) -/
 theorem rt_keeps_non_null (n : Nat) (s : Shape) (v v1 : JV) (hs : s ≠ .types)
     (h : rt descriptors n s v = .ok v1) (hn : v.isNull = false) : v1.isNull = false :=
